@@ -248,6 +248,10 @@ package keeper
 //@   flag pure=IsAVS,GetChainIDByAVSAddr,IsOperatorFrozen
 //@   ensures[C07.oo.active] err == nil ==> old(isActiveOp(ctx, accstr(operatorAddress), avsAddr))
 //@   before[C07.oo.active] InitiateOperatorKeyRemovalForChainID requires old(isActiveOp(ctx, accstr(operatorAddress), avsAddr))
+// C05 / C09 (an opted-in operator keeps its recorded value; a refused opt-out leaves no trace): the operator's value record
+// is dropped only on the path on which the opt-out goes through - after the active and not-frozen checks.
+//@   before[C05.oo.value,C09.oo.value] DeleteOperatorUSDValue requires old(isActiveOp(ctx, accstr(operatorAddress), avsAddr)) &&
+//@        defined(res_IsOperatorFrozen_0) && !res_IsOperatorFrozen_0
 
 // C07/C16: at the end of an epoch exactly the previous-key records of the chain are cleared (so that the next
 // replacement in a later epoch records - and schedules the pruning of - the key that was active): the iteration runs
